@@ -1,9 +1,32 @@
 package checks
 
-import "verif/harness/internal/core"
+import (
+	"strings"
+
+	"verif/harness/internal/core"
+)
 
 // C05's committed files: what a data-changing statement + COMMIT writes is the table, in the table's own layout,
 // whatever the session flags say (the family is C01's attributes family: 10 layouts x 4 statements x flags x ALTER SET).
+//
+// The cases that delete every row of the LTSV table or of the CSV table without a header line are left to C05's family
+// layouts: such a file without a record has no place for the column names (nor for their number), which that family's
+// oracle knows and the attributes oracle (written when csvq refused to commit such a table at all) does not.
 func init() {
-	core.Extend("C05", "committed files under session flags and changed table attributes ("+c01AttrRule+")", func(c *core.Ctx) { c01AttrRun(c, "C05") })
+	core.Extend("C05", "committed files under session flags and changed table attributes ("+c01AttrRule+")", func(c *core.Ctx) {
+		dir := core.Scratch("c01attr-C05")
+		for i, k := range c01AttrCases() {
+			if !c.Mine(int64(i)) {
+				continue
+			}
+			if (k.Table == "ltsv" || k.Table == "csv-no-header") && strings.Contains(k.Prog, "DELETE FROM "+c01AttrTableOf(k.Table).Expr+";") {
+				continue
+			}
+			if c.Expired() {
+				c.Incomplete("time budget reached in family attributes")
+				return
+			}
+			c01AttrOne(c, dir, k)
+		}
+	})
 }
